@@ -70,14 +70,19 @@ func runC07(x *Ctx) {
 	// R6
 	if f := x.fn("C07.R6", "token.fromIPLD"); f != nil {
 		sel, _, _ := x.E.Select(f, paths.WantSuccess)
-		var callees []string
+		nD, nI, other := 0, 0, ""
 		for _, v := range sel {
-			if ct, _ := paths.CallOf(v.Results()[0]); ct != nil {
-				callees = append(callees, ct.Name)
+			r := v.Results()[0]
+			switch {
+			case decodesWith(r, "token/delegation", "FromIPLD", "arg0"):
+				nD++
+			case decodesWith(r, "token/invocation", "FromIPLD", "arg0"):
+				nI++
+			default:
+				other += r.String() + " "
 			}
 		}
-		sort.Strings(callees)
-		x.C.Obl("C07.R6", "generic-is-typed", x.pos(f), "token.fromIPLD's only token-producing callees are delegation.FromIPLD and invocation.FromIPLD", strings.Join(callees, ",") == "token/delegation.FromIPLD,token/invocation.FromIPLD", strings.Join(callees, ","))
+		x.C.Obl("C07.R6", "generic-is-typed", x.pos(f), "token.fromIPLD produces tokens only through delegation.FromIPLD and invocation.FromIPLD applied to its node", nD >= 1 && nI >= 1 && other == "", other)
 	}
 }
 
@@ -547,6 +552,22 @@ func keysPairedWithValues(x *Ctx) {
 				case *ssa.MapUpdate:
 					touches = true
 				}
+			}
+		}
+		if paths.Inlineable != nil && paths.Inlineable(f) {
+			continue // a helper spliced into its callers: its stores are seen on their paths, with their facts
+		}
+		if !touches {
+			// the stores may sit in a helper spliced into this function's paths
+			for _, p := range x.pathsQuiet(f) {
+				p.Instrs(func(in ssa.Instruction) {
+					switch in.(type) {
+					case *ssa.MapUpdate:
+						touches = touches || in.Parent() != f
+					case *ssa.Store:
+						touches = touches || in.Parent() != f
+					}
+				})
 			}
 		}
 		if !touches {
